@@ -96,8 +96,9 @@ impl<'a> AnswerCheck<'a> {
         // variables that do not occur in the peeled goal are unconstrained and
         // cannot occur in the body at all.
         let body = self.pa.body.subst(&s);
-        self.refm
-            .eval(&body, &self.pa.hyps, &self.pa.skolems, self.depth, st)
+        // hypotheses may mention the unknowns too (`exists<X> { if (X: T0) { .. } }`)
+        let hyps: Vec<Atom> = self.pa.hyps.iter().map(|h| h.subst(&s)).collect();
+        self.refm.eval(&body, &hyps, &self.pa.skolems, self.depth, st)
     }
 
     /// Enumerates the definitely-TRUE witness tuples for the canonical variables.
